@@ -54,7 +54,13 @@ static FILE *devnull;
 static const char *KS[5] = {"a", "b", "c", "d", "zz"};
 
 /* =============================================================== qtreetbl */
-static const char *T_STATES[] = {"", "b", "ba", "bac", "abc", "cba", "bacd", "abcd", "dcba", "badc", "bacdB", "abcdA", "bacdD"};
+static char T_STATES[400][12]; static int T_NSTATES;
+static void t_perm(char *cur, int n, int used) {
+    strcpy(T_STATES[T_NSTATES++], cur);
+    if (n == 4) { for (int k = 0; k < 4; k++) { sprintf(T_STATES[T_NSTATES++], "%s%c", cur, 'A' + k); } return; }
+    for (int k = 0; k < 4; k++) if (!(used & (1 << k))) { cur[n] = 'a' + k; cur[n + 1] = 0; t_perm(cur, n + 1, used | (1 << k)); cur[n] = 0; }
+}
+static void t_genstates(int full) { char cur[12] = ""; T_NSTATES = 0; if (full) t_perm(cur, 0, 0); else { const char *few[] = {"", "b", "ba", "bac", "abc", "cba", "bacd", "abcd", "dcba", "badc", "bacdB", "abcdA", "bacdD"}; for (int i = 0; i < 13; i++) strcpy(T_STATES[T_NSTATES++], few[i]); } }
 static void *t_make(int st, int ts) { qtreetbl_t *t = qtreetbl(ts ? QTREETBL_THREADSAFE : 0); if (!t) return NULL; for (const char *p = T_STATES[st]; *p; p++) { char k[2] = {(char)(*p | 0x20), 0}; if (*p >= 'a') t->putstr(t, k, "v"); else t->remove(t, k); } return t; }
 static char *t_rec(qtreetbl_obj_t *o, char *p, int d) { if (!o || d > 12) { *p++ = '.'; return p; } *p++ = '('; p = t_rec(o->left, p, d + 1); p += sprintf(p, "%s%c%zu:%.4s", (char *)o->name, o->red ? 'r' : 'b', o->datasize, o->data ? (char *)o->data : "-"); p = t_rec(o->right, p, d + 1); *p++ = ')'; return p; }
 static void t_digest(void *c, char *out) { qtreetbl_t *t = c; char *p = out; p += sprintf(p, "n=%zu chk=%d ", t->size(t), qtreetbl_check(t)); p = t_rec(t->root, p, 0); *p = 0; }
@@ -102,7 +108,8 @@ static void t_build(void) {
 
 /* =============================================================== qhashtbl */
 static int H_RANGE = 2;
-static void *h_make(int st, int ts) { qhashtbl_t *t = qhashtbl(H_RANGE, ts ? QHASHTBL_THREADSAFE : 0); if (!t) return NULL; for (int i = 0; i < st && i < 3; i++) t->putstr(t, KS[i], "v"); if (st == 4) { for (int i = 0; i < 4; i++) t->putstr(t, KS[i], "v"); t->remove(t, "b"); } return t; }
+static const char *H_STATES[] = {"", "a", "b", "ab", "ba", "abc", "acb", "bac", "bca", "cab", "cba", "abcd", "dcba", "abcdB", "abcdA", "abcdD", "dcbaC"};
+static void *h_make(int st, int ts) { qhashtbl_t *t = qhashtbl(H_RANGE, ts ? QHASHTBL_THREADSAFE : 0); if (!t) return NULL; for (const char *p = H_STATES[st]; *p; p++) { char k[2] = {(char)(*p | 0x20), 0}; if (*p >= 'a') t->putstr(t, k, "v"); else t->remove(t, k); } return t; }
 static void h_digest(void *c, char *out) { qhashtbl_t *t = c; char *p = out; p += sprintf(p, "n=%zu ", t->size(t)); for (size_t s = 0; s < t->range; s++) { p += sprintf(p, "["); int g = 0; for (qhashtbl_obj_t *o = t->slots[s]; o && g < 10; o = o->next, g++) p += sprintf(p, "%s=%zu:%.4s ", o->name, o->size, (char *)o->data); p += sprintf(p, "]"); } }
 static void h_destroy(void *c) { ((qhashtbl_t *)c)->free(c); }
 static void *h_mutex(void *c) { return ((qhashtbl_t *)c)->qmutex; }
@@ -130,7 +137,10 @@ static void h_build(void) {
 /* =============================================================== qlisttbl */
 static int LT_OPT;
 static char lt_path[600], lt_loadpath[600];
-static void *lt_make(int st, int ts) { qlisttbl_t *t = qlisttbl(LT_OPT | (ts ? QLISTTBL_THREADSAFE : 0)); if (!t) return NULL; const char *seq[] = {"a", "b", "a", "c"}; for (int i = 0; i < st && i < 4; i++) t->putstr(t, seq[i], i == 2 ? "v2" : "v"); return t; }
+static void *lt_make(int st, int ts) { qlisttbl_t *t = qlisttbl(LT_OPT | (ts ? QLISTTBL_THREADSAFE : 0)); if (!t) return NULL;
+    /* state index = sequence of <= 3 puts over {a,b,c}: 0 empty, 1..3 length 1, 4..12 length 2, 13..39 length 3 */
+    int len = st == 0 ? 0 : st < 4 ? 1 : st < 13 ? 2 : 3, code = st == 0 ? 0 : st < 4 ? st - 1 : st < 13 ? st - 4 : st - 13;
+    for (int i = 0; i < len; i++) { t->putstr(t, KS[code % 3], i == 1 ? "v2" : "v"); code /= 3; } return t; }
 static void lt_digest(void *c, char *out) { qlisttbl_t *t = c; char *p = out; p += sprintf(p, "n=%zu ", t->size(t)); int g = 0; qlisttbl_obj_t *last = NULL; for (qlisttbl_obj_t *o = t->first; o && g < 12; o = o->next, g++) { p += sprintf(p, "%s=%zu:%.4s%s ", o->name, o->size, (char *)o->data, o->prev == last ? "" : "!prev"); last = o; } p += sprintf(p, "%s", t->last == last ? "" : "!last"); }
 static void lt_destroy(void *c) { ((qlisttbl_t *)c)->free(c); }
 static void *lt_mutex(void *c) { return ((qlisttbl_t *)c)->qmutex; }
@@ -229,7 +239,7 @@ static void l_build(void) {
 /* =============================================================== qvector */
 static int V_POL;
 static void *v_make(int st, int ts) { /* states: 0..3 elements with exact capacity; 4: 2 elements, capacity 4; 5: capacity 0 start, 1 element */
-    int n = st <= 3 ? st : st == 4 ? 2 : 1, cap = st <= 3 ? st : st == 4 ? 4 : 0;
+    int n = st % 5, cap = st < 5 ? n : st < 10 ? n + 2 : 0;      /* 15 states: n = 0..4 with exact capacity, spare capacity, capacity grown from 0 */
     int pol = V_POL == 0 ? QVECTOR_RESIZE_EXACT : V_POL == 1 ? QVECTOR_RESIZE_LINEAR : QVECTOR_RESIZE_DOUBLE;
     qvector_t *v = qvector(cap, 4, pol | (ts ? QVECTOR_THREADSAFE : 0)); if (!v) return NULL; for (int i = 0; i < n; i++) { int x = 0x41414141 + i; v->addlast(v, &x); } return v; }
 static void v_digest(void *c, char *out) { qvector_t *v = c; char *p = out; p += sprintf(p, "n=%zu max=%zu osz=%zu ", v->num, v->max, v->objsize); for (size_t i = 0; i < v->num && i < 12; i++) p += sprintf(p, "%.4s ", (char *)v->data + 4 * i); }
@@ -398,11 +408,11 @@ static void run_ctor(void) {
 static int setup_subject(const char *name) {
     memset(&SUBJ, 0, sizeof SUBJ);
 #define SETS(NM, NST, MK, DG, DS, MX, LK, UL, SF, OPS_, NOPS_) do { SUBJ.name = NM; SUBJ.nstates = NST; SUBJ.make = MK; SUBJ.digest = DG; SUBJ.destroy = DS; SUBJ.mutex = MX; SUBJ.lock = LK; SUBJ.unlock = UL; SUBJ.suffix = SF; SUBJ.ops = OPS_; SUBJ.nops = NOPS_; } while (0)
-    if (!strcmp(name, "qtreetbl")) { t_build(); SETS("qtreetbl", (int)(sizeof T_STATES / sizeof T_STATES[0]), t_make, t_digest, t_destroy, t_mutex, t_lock, t_unlock, t_suffix, T_OPS, T_NOPS); }
-    else if (!strncmp(name, "qhashtbl", 8)) { H_RANGE = name[8] ? atoi(name + 9) : 2; h_build(); SETS(name, 5, h_make, h_digest, h_destroy, h_mutex, h_lock, h_unlock, h_suffix, H_OPS, H_NOPS); }
-    else if (!strncmp(name, "qlisttbl", 8)) { int o = name[8] ? atoi(name + 9) : 0; LT_OPT = o << 1; lt_build(); SETS(name, 5, lt_make, lt_digest, lt_destroy, lt_mutex, lt_lock, lt_unlock, lt_suffix, LT_OPS, LT_NOPS); }
+    if (!strcmp(name, "qtreetbl")) { t_genstates(1); t_build(); SETS("qtreetbl", T_NSTATES, t_make, t_digest, t_destroy, t_mutex, t_lock, t_unlock, t_suffix, T_OPS, T_NOPS); }
+    else if (!strncmp(name, "qhashtbl", 8)) { H_RANGE = name[8] ? atoi(name + 9) : 2; h_build(); SETS(name, (int)(sizeof H_STATES / sizeof H_STATES[0]), h_make, h_digest, h_destroy, h_mutex, h_lock, h_unlock, h_suffix, H_OPS, H_NOPS); }
+    else if (!strncmp(name, "qlisttbl", 8)) { int o = name[8] ? atoi(name + 9) : 0; LT_OPT = o << 1; lt_build(); SETS(name, 40, lt_make, lt_digest, lt_destroy, lt_mutex, lt_lock, lt_unlock, lt_suffix, LT_OPS, LT_NOPS); }
     else if (!strcmp(name, "qlist") || !strcmp(name, "qqueue") || !strcmp(name, "qstack") || !strcmp(name, "qgrow")) { L_KIND = !strcmp(name, "qlist") ? 0 : !strcmp(name, "qqueue") ? 1 : !strcmp(name, "qstack") ? 2 : 3; l_build(); SETS(name, L_KIND == 3 ? 4 : L_KIND == 0 ? 5 : 6, l_make, l_digest, l_destroy, l_mutex, l_lock, l_unlock, l_suffix, L_OPS, L_NOPS); if (L_KIND == 3) SUBJ.suffix = g_suffix; }
-    else if (!strncmp(name, "qvector", 7)) { V_POL = name[7] ? atoi(name + 8) : 0; v_build(); SETS(name, 6, v_make, v_digest, v_destroy, v_mutex, v_lock, v_unlock, v_suffix, V_OPS, V_NOPS); }
+    else if (!strncmp(name, "qvector", 7)) { V_POL = name[7] ? atoi(name + 8) : 0; v_build(); SETS(name, 15, v_make, v_digest, v_destroy, v_mutex, v_lock, v_unlock, v_suffix, V_OPS, V_NOPS); }
     else if (!strcmp(name, "qhasharr")) { ha_build(); SETS("qhasharr", 4, ha_make, ha_digest, ha_destroy, ha_mutex, ha_nolock, ha_nolock, ha_suffix, HA_OPS, HA_NOPS); }
     else if (!strcmp(name, "qlog")) { lg_build(); SETS("qlog", 1, lg_make, lg_digest, lg_destroy, lg_mutex, ha_nolock, ha_nolock, lg_suffix, LG_OPS, LG_NOPS); }
     else return -1;
